@@ -374,12 +374,12 @@ def run_property(prop, tier, seed, only=None):
             pool.join()
     known_hits.update(agg.known)
 
-    os.makedirs(os.path.join(env.VERIF_DIR, "replays", pid), exist_ok=True)
+    os.makedirs(os.path.join(env.OUT_DIR, "replays", pid), exist_ok=True)
     for b, fl in sorted(found.items()):
         name = "".join(ch if ch.isalnum() or ch in "-_." else "_" for ch in b)[:80]
         h = "%08x" % (env.strhash(json.dumps(fl["choices"])) & 0xFFFFFFFF)
         rel = os.path.join("replays", pid, f"{name}-{h}.json")
-        with open(os.path.join(env.VERIF_DIR, rel), "w") as f:
+        with open(os.path.join(env.OUT_DIR, rel), "w") as f:
             json.dump({"property": pid, **fl}, f, indent=1, default=repr)
         violations.append((b, rel, f"{fl['kind']}: {fl['detail']}"))
 
@@ -446,8 +446,8 @@ def run_property(prop, tier, seed, only=None):
         "property_id": pid, "tier": tier, "seed": int(seed), "level": prop.level, "coverage": coverage,
         "assumptions": prop.assumptions, "wall_s": round(time.time() - t0, 2), "violations": len(violations),
     }
-    os.makedirs(os.path.join(env.VERIF_DIR, "evidence"), exist_ok=True)
-    with open(os.path.join(env.VERIF_DIR, "evidence", f"{pid}.json"), "w") as f:
+    os.makedirs(os.path.join(env.OUT_DIR, "evidence"), exist_ok=True)
+    with open(os.path.join(env.OUT_DIR, "evidence", f"{pid}.json"), "w") as f:
         json.dump(ev, f, indent=1, default=repr, sort_keys=True)
     st_line = ", ".join(f"{k}={v}" for k, v in sorted(agg.status.items()))
     print(f"{pid} tier={tier} seed={seed} evaluations={evaluations} distinct_nontrivial={len(agg.keys)} [{st_line}] "
